@@ -154,6 +154,30 @@ class InjectedLookupError(KeyError):
     pass
 
 
+class Matcher:
+    """A sentinel that decides by itself what equals it: anything whose key is the sentinel key."""
+
+    def __eq__(self, other):
+        return getattr(other, "k", None) == SENTINEL_KEY
+
+    def __hash__(self):
+        return 0
+
+
+class StrictItem(Item):
+    """An item that answers every comparison with something that is no item with False (not NotImplemented)."""
+
+    __slots__ = ()
+
+    def __eq__(self, o):
+        return self.k == o.k if isinstance(o, Item) else False
+
+    def __ne__(self, o):
+        return not self.__eq__(o)
+
+    __hash__ = Item.__hash__
+
+
 class StrSub(str):
     pass
 
@@ -175,6 +199,8 @@ def build_call(L, tool, par, S, F, rec):
         return lambda: L.enumerate(S[0], par["start"])
     if tool == "iter":
         rec.sentinel = Item(0, 0, 7 if par.get("sent") == "ident" else SENTINEL_KEY)
+        if par.get("sent") == "eq" and rec.matcher:
+            rec.sentinel = Matcher()        # "equal to the sentinel" is the sentinel's own judgement (it is asked first)
         return lambda: L.iter(F("subject"), rec.sentinel)
     if tool == "accumulate":
         kw = {"initial": Node("initial")} if par["init"] else {}
@@ -408,6 +434,7 @@ def execute(case, L, *, sync=False, flav=None, susp=0, fault_kind="exc", cancel_
     rec = Recorder()
     rec.susp = 0 if sync else susp
     rec.first_item = []
+    rec.matcher = tool == "iter" and par.get("sent") == "eq" and len(data[0]) % 2 == 1
     rec.close_susp = 0
     from . import instruments as _ins  # noqa: PLC0415
     _ins.set_mutation_sink(rec.mutations)
@@ -461,7 +488,7 @@ def execute(case, L, *, sync=False, flav=None, susp=0, fault_kind="exc", cancel_
                     p = state["p"]
                     if p > len(keys) and par.get("sent") == "ident":
                         return rec.sentinel        # the sentinel object itself
-                    return Item(1, p, keys[p - 1] if p <= len(keys) else SENTINEL_KEY)
+                    return (StrictItem if rec.matcher else Item)(1, p, keys[p - 1] if p <= len(keys) else SENTINEL_KEY)
 
             made[name] = make_callable(call_flav, rec, name, sem)
         return made[name]
